@@ -32,6 +32,8 @@ EXTENDS Integers, FiniteSets, Sequences, TLC
 CONSTANTS Keys, TO,
           Tmpl,        \* [Keys -> Entry]: the (static) type / protocol / state / reverse key of every key
           InitEx,      \* set of subsets of Keys: which entries exist initially
+          RevAhead,    \* set of Nat: initial last_seen of NAT reverse entries (all other entries: 0); a reverse entry
+                       \* ahead of its forward entry = the last packet of the connection went in the reverse direction
           KeyOrd,      \* sequence enumerating Keys (canonical order of queue writes)
           MaxNow, MaxPkt, MaxScan,   \* bounds; MaxPkt >= 99 / MaxScan >= 99: unbounded
           Batch, Split, RevRace
@@ -61,8 +63,10 @@ Plains == { k \in Keys : Tmpl[k].ty = P!TNormal }
 FwdOf(r) == CHOOSE f \in Fwds : Tmpl[f].rev = r
 
 Init ==
-    /\ now = 0 /\ to = TO
-    /\ \E S \in InitEx : ct = [k \in Keys |-> IF k \in S THEN Ent(k, 0) ELSE P!Absent]
+    /\ to = TO
+    /\ \E S \in InitEx, d \in RevAhead :
+          /\ now = d
+          /\ ct = [k \in Keys |-> IF k \notin S THEN P!Absent ELSE IF k \in Revs THEN Ent(k, d) ELSE Ent(k, 0)]
     /\ obs = [k \in Keys |-> P!NoObs]
     /\ pc = "idle" /\ snap = [k \in Keys |-> P!Absent] /\ todo = {} /\ cur = "" /\ jn = 0 /\ nexp = 0
     /\ des = EmptyQ /\ rmap = EmptyQ /\ ccq = EmptyQ /\ loaded = FALSE /\ ret = "idle"
@@ -283,6 +287,9 @@ TypeOK ==
     /\ \A k \in Keys : ct[k].ex => ct[k].ls <= now
 \* liveness (design spec only): no entry stays removable forever
 Live == \A k \in Keys : []<>(~P!Removable(k))
+\* reachability probes (each is expected to be VIOLATED; used once while developing, see notes/C14.md)
+ProbePairQueued == \A k \in Keys : ~(ccq[k].set /\ ccq[k].rev # D)
+ProbeRevWaits == \A k \in Keys : ~(rmap[k].set /\ rmap[k].rev # D)
 
 \* ---- model constants used by the MC_*.cfg / Gen_*.cfg files ----------------------------------------
 E(ty, pr, a, b, rev) == [ex |-> TRUE, ty |-> ty, pr |-> pr, a |-> a, b |-> b, dsr |-> FALSE, rr |-> FALSE, ls |-> 0, rev |-> rev]
@@ -305,5 +312,5 @@ Init3all == {Keys3}
 Keys2 == {"f1", "r1"}
 Tmpl2 == [k \in Keys2 |-> Tmpl4[k]]
 Ord2 == <<"f1", "r1">>
-Init2 == {Keys2}
+Init2 == {Keys2, {"f1"}, {"r1"}}
 =============================================================================
